@@ -14,6 +14,7 @@ import (
 	"unsafe"
 
 	"github.com/philpearl/avro"
+	"github.com/unravelin/null/v5"
 
 	"verifharness/filedrv"
 	"verifharness/gv"
@@ -57,6 +58,9 @@ type Obs struct {
 type Scenario struct {
 	Name    string
 	Threads int
+	// NoLibraryRegistration: the execution starts with EMPTY registries (the driver does not call the time / null
+	// packages' RegisterCodecs before Setup)
+	NoLibraryRegistration bool
 	Setup   func(env *Env) *State
 	Body    func(st *State, tid int) Obs
 	// Allowed returns "" if the observations are what some sequential order of the operations allows.
@@ -109,6 +113,15 @@ type HolderM struct {
 var custMapT = reflect.TypeOf(CustMap(nil))
 
 var errAbandon = fmt.Errorf("caller abandons the file")
+
+type TwoDates struct {
+	T time.Time `json:"t"`
+	U time.Time `json:"u"`
+}
+
+type OneTime struct {
+	T time.Time `json:"t"`
+}
 
 const holderSchema = `{"type":"record","name":"HolderC","fields":[{"name":"c","type":"long"}]}`
 
@@ -572,6 +585,102 @@ func Scenarios() []Scenario {
 			},
 			Check: allOK})
 	}
+	// S12: every thread registers the null package's codecs itself and uses them at once — from EMPTY registries
+	out = append(out, Scenario{Name: "S12 null.RegisterCodecs then use, x2, from empty registries", Threads: 2, NoLibraryRegistration: true,
+		Setup: func(env *Env) *State { return &State{Env: env} },
+		Body: func(st *State, tid int) Obs {
+			reg.Null()
+			type nn struct {
+				N null.Int    `json:"n"`
+				S null.String `json:"s"`
+			}
+			s, err := avro.SchemaForType(nn{})
+			if err != nil {
+				return Obs{Err: err.Error()}
+			}
+			b, _ := s.Marshal()
+			if !strings.Contains(string(b), `["null","long"]`) || !strings.Contains(string(b), `["null","string"]`) {
+				return Obs{S: "DIFF right after null.RegisterCodecs() returned, the generated schema is " + string(b)}
+			}
+			codec, err := s.Codec(nn{})
+			if err != nil {
+				return Obs{Err: err.Error()}
+			}
+			var v nn
+			if err := codec.Read(avro.NewReadBuf([]byte{2, 10, 2, 2, 'x'}), unsafe.Pointer(&v)); err != nil || !v.N.Valid || v.N.Int64 != 5 || v.S.String != "x" {
+				return Obs{S: fmt.Sprintf("DIFF decoded %+v err=%v", v, err)}
+			}
+			return Obs{S: "ok"}
+		},
+		Check: allOK})
+	// S13: logical dates decoded by three threads, different days, one shared codec
+	out = append(out, Scenario{Name: "S13 date decode x3, different days, shared codec", Threads: 3,
+		Setup: func(env *Env) *State {
+			st := &State{Env: env}
+			s, err := avro.SchemaFromString(`{"type":"record","name":"d","fields":[{"name":"t","type":{"type":"int","logicalType":"date"}},{"name":"u","type":{"type":"int","logicalType":"date"}}]}`)
+			if err != nil {
+				panic(err)
+			}
+			st.Codec, err = s.Codec(TwoDates{})
+			if err != nil {
+				panic(err)
+			}
+			return st
+		},
+		Body: func(st *State, tid int) Obs {
+			for round := 0; round < 2; round++ {
+				d1, d2 := int64(19000+tid*7+round), int64(-300-tid)
+				var v TwoDates
+				in := ref.AppendLong(ref.AppendLong(nil, d1), d2)
+				if err := st.Codec.Read(avro.NewReadBuf(in), unsafe.Pointer(&v)); err != nil {
+					return Obs{Err: err.Error()}
+				}
+				if !v.T.Equal(time.Unix(d1*86400, 0)) || !v.U.Equal(time.Unix(d2*86400, 0)) {
+					return Obs{S: fmt.Sprintf("DIFF days %d,%d decoded as %s, %s", d1, d2, v.T.UTC().Format(time.RFC3339), v.U.UTC().Format(time.RFC3339))}
+				}
+			}
+			return Obs{S: "ok"}
+		},
+		Check: allOK})
+	// S14: timestamps with many different zone offsets; thread 0 decodes from ONE buffer it overwrites every time
+	// (as a file reader does with its block buffer), the others from fresh buffers
+	out = append(out, Scenario{Name: "S14 time decode, 12 zones, thread 0 reuses its input buffer", Threads: 3,
+		Setup: func(env *Env) *State {
+			st := &State{Env: env}
+			s, err := avro.SchemaFromString(`{"type":"record","name":"d","fields":[{"name":"t","type":"string"}]}`)
+			if err != nil {
+				panic(err)
+			}
+			st.Codec, err = s.Codec(OneTime{})
+			if err != nil {
+				panic(err)
+			}
+			return st
+		},
+		Body: func(st *State, tid int) Obs {
+			var buf []byte
+			for i := 0; i < 4; i++ {
+				z := i*3 + tid // twelve distinct offsets over the three threads
+				txt := fmt.Sprintf("2021-03-04T05:06:07+%02d:%02d", 1+z, 7*z%60)
+				if tid == 0 {
+					buf = append(ref.AppendLong(buf[:0], int64(len(txt))), txt...)
+				} else {
+					buf = append(ref.AppendLong(nil, int64(len(txt))), txt...)
+				}
+				var v OneTime
+				if err := st.Codec.Read(avro.NewReadBuf(buf), unsafe.Pointer(&v)); err != nil {
+					return Obs{Err: err.Error()}
+				}
+				want, _ := time.Parse(time.RFC3339, txt)
+				_, wo := want.Zone()
+				_, g := v.T.Zone()
+				if !v.T.Equal(want) || g != wo {
+					return Obs{S: fmt.Sprintf("DIFF %q decoded as %s", txt, v.T.Format(time.RFC3339))}
+				}
+			}
+			return Obs{S: "ok"}
+		},
+		Check: allOK})
 	// S7: mixed
 	out = append(out, Scenario{Name: "S7 mixed: Register || shared decode with new zone || build+decode", Threads: 3,
 		Setup: func(env *Env) *State {
